@@ -14,3 +14,9 @@ def F3_blend(v):
 def F7_no_candidates(v):
     """a rerun that selects no execution at all (no abended terminal task and no explicit request)"""
     return bool(v and v.get("no_candidates"))
+
+
+def F11_late_arrival(v):
+    """a further satisfied inbound transition arrives at a join (join: N with N smaller than the number of
+    inbound tasks, or a join in a cycle) whose execution for the already satisfied barrier is still in flight"""
+    return bool(v and v.get("late_arrival_at_running_join"))
